@@ -12,6 +12,7 @@ fn exec_for(prop: &str) -> Exec {
     match prop {
         "C10" | "C11" | "C14" => props::text::exec,
         "C12" => props::edit::exec,
+        "C18" => props::matchw::exec,
         _ => panic!("unknown property {prop}"),
     }
 }
@@ -34,6 +35,7 @@ fn main() {
                 "C11" => props::text::run_c11(&mut c),
                 "C14" => props::text::run_c14(&mut c),
                 "C12" => props::edit::run_c12(&mut c),
+                "C18" => props::matchw::run_c18(&mut c),
                 _ => unreachable!(),
             }
             c.finish(dir);
